@@ -35,7 +35,7 @@ MARK8 = [0xEF, 0xBB, 0xBF]
 
 def judge_case(c, r):
     """One replayed case: returns (list of (signature, detail), drift:bool).  Only values computed by the
-    declarative layer in TLC (encreq, exp) decide; impl/sig only name a confirmed deviation class."""
+    declarative layer in TLC (encreq, exp) decide; impl/alts only name confirmed deviation classes."""
     out = []
     drift = False
     mode = c["mode"]
@@ -57,8 +57,12 @@ def judge_case(c, r):
     elif exp["def"]:
         if st == "ok" and d == exp["s"]:
             drift = impl != exp
-        elif c["sig"] != "none" and st == "ok" and impl["def"] and d == impl["s"] and (mode != "rt" or r["enc"] == c["bytes"]):
-            out.append(("C16:" + c["sig"], det))
+        elif st == "ok" and (mode != "rt" or r["enc"] == c["bytes"]) and any(a["impl"] == {"def": True, "s": d} for a in c["alts"]):
+            # lopdf returned exactly what the impl-shaped layer predicts for a set of confirmed deviations
+            for a in c["alts"]:
+                if a["impl"] == {"def": True, "s": d}:
+                    for sg in a["sigs"]:
+                        out.append(("C16:" + sg, det))
         else:
             out.append(("C16:" + clause, det))
     else:
@@ -117,7 +121,7 @@ def run_mc(chk, cfg, tier, w, emit=True):
     chk.sample({"generated_case": {k: cases[odd][k] for k in ("mode", "bytes", "exp")},
                 "lopdf": {k: results[odd][k] for k in ("st", "d")}})
     # (B) negative control for the replay stepper: a corrupted expectation must be reported
-    good = next(i for i, c in enumerate(cases) if c["mode"] == "rt" and c["sig"] == "none" and "astral" in c["cls"])
+    good = next(i for i, c in enumerate(cases) if c["mode"] == "rt" and not c["alts"] and "astral" in c["cls"])
     bad = json.loads(json.dumps(cases[good]))
     bad["exp"]["s"][0] ^= 1
     v, _ = judge_case(bad, results[good])
@@ -190,10 +194,11 @@ def run(tier):
         raise vlib.ToolError("vacuous recorded set: missing %s" % missing)
     r, verdicts = validate(chk, tr, recs, "c16trace")
     chk.add_tlc(r)
-    tags = {}
+    tags, cats = {}, {}
     for v in verdicts:
         rec = recs[v["i"] - 1]
         tags[v["v"]] = tags.get(v["v"], 0) + 1
+        cats[v["cat"]] = cats.get(v["cat"], 0) + 1
         if rec["k"] == "scal":
             for c in rec["cs"]:
                 chk.case(c)                       # int keys: the swept scalar values
@@ -210,14 +215,17 @@ def run(tier):
             for f in b["vs"]:
                 chk.violation("C16:" + f, {"record": {"k": "ts", "s": [b["c"]], "enc": rec["encs"][j], "st": rec["sts"][j],
                                                       "d": rec["ds"][j]}, "verdict": f})
-    # the validator itself must have used every clause of the declarative layer
-    for t, least in (("ok-published", 500), ("ok-present", 300), ("ok-absent", 100), ("ok-utf16", 50), ("ok-ascii", 20),
-                     ("ok-raw-u16", 5), ("ok-raw-tab", 5), ("ok-undef-u16", 5), ("ok-undef-u8", 5), ("ok-batch", 10)):
-        if tags.get(t, 0) < least:
-            raise vlib.ToolError("vacuous validation: only %d verdicts %s (need %d): %s" % (tags.get(t, 0), t, least, tags))
+    # every clause of the declarative layer must have been reached by the recorded inputs (categories are
+    # properties of the input, whatever the outcome)
+    for t, least in (("published", 500), ("present", 300), ("absent", 100), ("utf16", 50), ("ascii", 20), ("utf8", 50),
+                     ("raw-u16", 5), ("raw-tab", 5), ("raw-u8", 5), ("undef-u16", 5), ("undef-u8", 5), ("batch", 10),
+                     ("extract", 20)):
+        if cats.get(t, 0) < least:
+            raise vlib.ToolError("vacuous validation: only %d records of category %s (need %d): %s" % (cats.get(t, 0), t, least, cats))
+    chk.extra["record_categories"] = cats
     chk.extra["verdict_tags"] = tags
     chk.extra["record_kinds"] = kinds
-    chk.extra["model_drift"] = chk.extra.get("model_drift", 0) + tags.get("ok-drift", 0)
+    chk.extra["model_drift"] = chk.extra.get("model_drift", 0) + cats.get("drift", 0)
     ex = next(rec for rec in recs if rec["k"] == "ext" and len(rec["parts"]) >= 2)
     chk.sample({"recorded_page": [{k: p[k] for k in ("e", "op", "f", "b", "t")} for p in ex["parts"]][:3],
                 "extract_text": ex["r1"][:40], "after_save_load": ex["r2"][:40]})
@@ -226,24 +234,37 @@ def run(tier):
 
     # (B) negative control: corrupt one field of four records, the validator must reject each
     cells = [rec for rec in recs if rec["k"] == "cell"]
+    accepted = [recs[v["i"] - 1] for v in verdicts if v["v"].startswith("ok")]
+
     def clone(x):
         return json.loads(json.dumps(x))
-    n_ext = clone(next(rec for rec in recs if rec["k"] == "ext" and rec["st2"] == "ok" and any(c not in (32, 9, 10, 13) for c in rec["r2"])))
-    pos = max(i for i, c in enumerate(n_ext["r2"]) if c not in (32, 9, 10, 13))
-    del n_ext["r2"][pos]                                   # extraction after reload lost one character
-    n_rt = clone(next(rec for rec in recs if rec["k"] == "ts" and rec["st"] == "ok" and rec["d"] == rec["s"] and any(c >= 0x10000 for c in rec["s"])))
-    n_rt["d"][-1] ^= 1                                     # decoded string differs in one scalar
-    n_enc = clone(next(rec for rec in recs if rec["k"] == "ts" and rec["st"] == "ok" and len(rec["enc"]) >= 4 and rec["enc"][:2] == MARK16
-                       and rec["enc"][2] != rec["enc"][3]))
-    n_enc["enc"][2], n_enc["enc"][3] = n_enc["enc"][3], n_enc["enc"][2]   # little-endian unit
-    n_cell = clone(next(rec for rec in cells if rec["e"] == "WinAnsiEncoding" and rec["b"] == 0xE9))
-    n_cell["d"] = [0xEA]; n_cell["dd"] = [0xEA]            # one edited cell in the transcribed region
-    negs = [n_ext, n_rt, n_enc, n_cell]
+
+    def first(pred):
+        return next((clone(rec) for rec in accepted if pred(rec)), None)
+    ws = (32, 9, 10, 13)
+    negs, want = [], []
+    n_ext = first(lambda rec: rec["k"] == "ext" and any(c not in ws for c in rec["r2"]))
+    if n_ext:
+        del n_ext["r2"][max(i for i, c in enumerate(n_ext["r2"]) if c not in ws)]   # extraction after reload lost a character
+        negs.append(n_ext); want.append("extract.reloaded")
+    n_rt = first(lambda rec: rec["k"] == "ts" and any(c >= 0x10000 for c in rec["s"]))
+    if n_rt:
+        n_rt["d"][-1] ^= 1                                                          # decoded string differs in one scalar
+        negs.append(n_rt); want.append("textrt")
+    n_enc = first(lambda rec: rec["k"] == "ts" and len(rec["enc"]) >= 4 and rec["enc"][:2] == MARK16 and rec["enc"][2] != rec["enc"][3])
+    if n_enc:
+        n_enc["enc"][2], n_enc["enc"][3] = n_enc["enc"][3], n_enc["enc"][2]         # little-endian unit
+        negs.append(n_enc); want.append("enc.utf16")
+    n_cell = first(lambda rec: rec["k"] == "cell" and rec["e"] == "WinAnsiEncoding" and rec["b"] in range(0xC0, 0x100))
+    if n_cell:
+        n_cell["d"] = [n_cell["d"][0] ^ 1]; n_cell["dd"] = n_cell["d"]              # one edited cell in the transcribed region
+        negs.append(n_cell); want.append("table.published")
+    if len(negs) < 4 and not chk.violations:
+        raise vlib.ToolError("could not build all negative controls although nothing was rejected")
     ntr = os.path.join(w, "neg.ndjson")
     write_ndjson(ntr, cells + negs)
     _, nv = validate(chk, ntr, cells + negs, "c16neg")
     got = [v["v"] for v in nv[len(cells):]]
-    want = ["extract.reloaded", "textrt", "enc.utf16", "table.published"]
     if got != want:
         raise vlib.ToolError("negative controls not rejected as expected: got %s, want %s" % (got, want))
     chk.extra["negative_controls_rejected"] = chk.extra.get("negative_controls_rejected", 0) + len(negs)
